@@ -523,3 +523,126 @@ Proof.
   intros Hx. unfold dval, dec_abs. cbn [d_coeff d_nfd]. rewrite abs_IZR. unfold Rdiv.
   rewrite Rabs_mult, (Rabs_pos_eq (/ _)); [reflexivity|]. apply Rlt_le, Rinv_0_lt_compat, IZR_ten_pow_pos. apply Hx.
 Qed.
+
+(** * totality from bounds on the real values *)
+Definition big : R := IZR (ten_pow 19).
+
+Lemma i128_max_gt_1e37 : ten_pow 37 < i128_max.
+Proof. reflexivity. Qed.
+
+Lemma coeff_bound_of_val d : dec_ok d -> (Rabs (dval d) < big)%R -> Z.abs (d_coeff d) < ten_pow 37.
+Proof.
+  intros Hd Hb. unfold dec_ok in Hd. unfold dval, big in Hb.
+  pose proof (IZR_ten_pow_pos (d_nfd d) (proj1 Hd)) as P.
+  unfold Rdiv in Hb. rewrite Rabs_mult, Rabs_inv, (Rabs_pos_eq (IZR (ten_pow _))) in Hb by lra.
+  rewrite <- abs_IZR in Hb.
+  assert (H : (IZR (Z.abs (d_coeff d)) < IZR (ten_pow 19) * IZR (ten_pow (d_nfd d)))%R).
+  { apply Rmult_lt_reg_r with (/ IZR (ten_pow (d_nfd d)))%R; [apply Rinv_0_lt_compat; exact P|].
+    rewrite Rmult_assoc, Rinv_r by lra. lra. }
+  rewrite <- mult_IZR in H. apply lt_IZR in H. rewrite <- ten_pow_add in H by lia.
+  apply Z.lt_le_trans with (1 := H). apply ten_pow_mono. lia.
+Qed.
+
+Theorem dec_mul_total_R x y : dec_ok x -> dec_ok y -> (Rabs (dval x * dval y) < big)%R -> exists z, dec_mul x y = Ok z.
+Proof.
+  intros Hx Hy Hb. apply dec_mul_total; [exact Hx|exact Hy|]. unfold dec_ok in Hx, Hy.
+  set (m := d_nfd x + d_nfd y). set (k := Z.max 0 (m - 18)).
+  pose proof (IZR_ten_pow_pos (d_nfd x) (proj1 Hx)) as Px. pose proof (IZR_ten_pow_pos (d_nfd y) (proj1 Hy)) as Py.
+  assert (H : Z.abs (d_coeff x * d_coeff y) < ten_pow (19 + m)).
+  { unfold dval, big in Hb.
+    replace (IZR (d_coeff x) / IZR (ten_pow (d_nfd x)) * (IZR (d_coeff y) / IZR (ten_pow (d_nfd y))))%R
+      with (IZR (d_coeff x * d_coeff y) * / (IZR (ten_pow (d_nfd x)) * IZR (ten_pow (d_nfd y))))%R in Hb by (rewrite mult_IZR; field; split; lra).
+    assert (Pm : (0 < IZR (ten_pow (d_nfd x)) * IZR (ten_pow (d_nfd y)))%R) by (apply Rmult_lt_0_compat; assumption).
+    rewrite Rabs_mult, Rabs_inv, (Rabs_pos_eq (_ * _)) in Hb by lra. rewrite <- abs_IZR in Hb.
+    assert (H : (IZR (Z.abs (d_coeff x * d_coeff y)) < IZR (ten_pow 19) * (IZR (ten_pow (d_nfd x)) * IZR (ten_pow (d_nfd y))))%R).
+    { apply Rmult_lt_reg_r with (/ (IZR (ten_pow (d_nfd x)) * IZR (ten_pow (d_nfd y))))%R; [apply Rinv_0_lt_compat; exact Pm|].
+      rewrite Rmult_assoc, Rinv_r by lra. lra. }
+    rewrite <- !mult_IZR in H. apply lt_IZR in H. unfold m. rewrite !ten_pow_add by lia. lia. }
+  apply Z.lt_trans with (ten_pow 37); [|exact i128_max_gt_1e37].
+  apply Z.div_lt_upper_bound; [apply ten_pow_pos; unfold k; lia|].
+  rewrite <- ten_pow_add by (unfold k; lia). apply Z.lt_le_trans with (1 := H). apply ten_pow_mono. unfold k. lia.
+Qed.
+
+Theorem dec_div_total_R x y : dec_ok x -> dec_ok y ->
+  Z.abs (d_coeff x) <= i128_max -> Z.abs (d_coeff y) <= i128_max -> dval y <> 0%R ->
+  (Rabs (dval x / dval y) < big)%R -> exists z, dec_div x y = Ok z.
+Proof.
+  intros Hx Hy Bx By Hy0 Hb.
+  assert (Hcy : d_coeff y <> 0) by (intros E; apply Hy0; apply dval_zero_coeff; exact E).
+  apply dec_div_total; try assumption. unfold dec_ok in Hx, Hy.
+  pose proof (IZR_ten_pow_pos (d_nfd x) (proj1 Hx)) as Px. pose proof (IZR_ten_pow_pos (d_nfd y) (proj1 Hy)) as Py.
+  assert (Pc : (0 < IZR (Z.abs (d_coeff y)))%R) by (apply IZR_lt; lia).
+  assert (Hcy' : IZR (d_coeff y) <> 0%R) by (intros E; apply eq_IZR in E; contradiction).
+  (* |cx| * 10^ny < 10^19 * |cy| * 10^nx *)
+  assert (H : Z.abs (d_coeff x) * ten_pow (d_nfd y) < ten_pow 19 * (Z.abs (d_coeff y) * ten_pow (d_nfd x))).
+  { unfold dval, big in Hb.
+    replace (IZR (d_coeff x) / IZR (ten_pow (d_nfd x)) / (IZR (d_coeff y) / IZR (ten_pow (d_nfd y))))%R
+      with ((IZR (d_coeff x) * IZR (ten_pow (d_nfd y))) * / (IZR (d_coeff y) * IZR (ten_pow (d_nfd x))))%R in Hb by (field; repeat split; lra).
+    rewrite Rabs_mult, Rabs_inv, !Rabs_mult, !(Rabs_pos_eq (IZR (ten_pow _))) in Hb by lra. rewrite <- !abs_IZR in Hb.
+    assert (Pm : (0 < IZR (Z.abs (d_coeff y)) * IZR (ten_pow (d_nfd x)))%R) by (apply Rmult_lt_0_compat; assumption).
+    assert (H : (IZR (Z.abs (d_coeff x)) * IZR (ten_pow (d_nfd y)) < IZR (ten_pow 19) * (IZR (Z.abs (d_coeff y)) * IZR (ten_pow (d_nfd x))))%R).
+    { apply Rmult_lt_reg_r with (/ (IZR (Z.abs (d_coeff y)) * IZR (ten_pow (d_nfd x))))%R; [apply Rinv_0_lt_compat; exact Pm|].
+      rewrite (Rmult_assoc (IZR (ten_pow 19))), Rinv_r by lra. lra. }
+    rewrite <- !mult_IZR in H. apply lt_IZR in H. exact H. }
+  apply Z.lt_trans with (ten_pow 37); [|exact i128_max_gt_1e37].
+  apply Z.div_lt_upper_bound; [lia|].
+  replace (18 + d_nfd y - d_nfd x) with (d_nfd y + (18 - d_nfd x)) by ring. rewrite ten_pow_add by lia.
+  pose proof (ten_pow_pos (18 - d_nfd x) ltac:(lia)) as P18.
+  assert (E37 : ten_pow 37 = ten_pow 19 * (ten_pow (d_nfd x) * ten_pow (18 - d_nfd x))).
+  { rewrite <- !ten_pow_add by lia. f_equal. lia. }
+  rewrite E37. nia.
+Qed.
+
+Theorem dec_addsub_total_R op x y : dec_ok x -> dec_ok y ->
+  (forall a b, Z.abs (op a b) <= Z.abs a + Z.abs b) ->
+  (Rabs (dval x) < big)%R -> (Rabs (dval y) < big)%R -> exists z, dec_addsub op x y = Ok z.
+Proof.
+  intros Hx Hy Hop Bx By. apply dec_addsub_total; try assumption. unfold dec_ok in Hx, Hy.
+  assert (scaled : forall d, 0 <= d_nfd d <= 18 -> (Rabs (dval d) < big)%R -> Z.abs (d_coeff d) * ten_pow (18 - d_nfd d) < ten_pow 37).
+  { intros d Hd Hb. unfold dval, big in Hb. pose proof (IZR_ten_pow_pos (d_nfd d) (proj1 Hd)) as P.
+    unfold Rdiv in Hb. rewrite Rabs_mult, Rabs_inv, (Rabs_pos_eq (IZR (ten_pow _))) in Hb by lra. rewrite <- abs_IZR in Hb.
+    assert (H : (IZR (Z.abs (d_coeff d)) < IZR (ten_pow 19) * IZR (ten_pow (d_nfd d)))%R).
+    { apply Rmult_lt_reg_r with (/ IZR (ten_pow (d_nfd d)))%R; [apply Rinv_0_lt_compat; exact P|]. rewrite Rmult_assoc, Rinv_r by lra. lra. }
+    rewrite <- mult_IZR in H. apply lt_IZR in H.
+    pose proof (ten_pow_pos (18 - d_nfd d) ltac:(lia)) as P18.
+    assert (E37 : ten_pow 37 = ten_pow 19 * ten_pow (d_nfd d) * ten_pow (18 - d_nfd d)).
+    { rewrite <- !ten_pow_add by lia. f_equal. lia. }
+    rewrite E37. nia. }
+  pose proof (scaled x Hx Bx). pose proof (scaled y Hy By).
+  assert (2 * ten_pow 37 <= i128_max) by (vm_compute; discriminate). lia.
+Qed.
+
+(** the 18-digit grid: two grid values closer than one unit are equal *)
+Definition grid18 (r : R) : Prop := exists m : Z, r = (IZR m / IZR (ten_pow 18))%R.
+
+Lemma dval_grid18 d : dec_ok d -> grid18 (dval d).
+Proof.
+  intros Hd. unfold dec_ok in Hd. exists (d_coeff d * ten_pow (18 - d_nfd d)). unfold dval.
+  replace 18 with (d_nfd d + (18 - d_nfd d)) at 2 by ring. rewrite dval_scaled by lia. reflexivity.
+Qed.
+
+Lemma grid18_close a b : grid18 a -> grid18 b -> (Rabs (a - b) <= half_ulp18)%R -> a = b.
+Proof.
+  intros [m ->] [n ->] H. pose proof (IZR_ten_pow_pos 18 ltac:(lia)) as P.
+  replace (IZR m / IZR (ten_pow 18) - IZR n / IZR (ten_pow 18))%R with (IZR (m - n) * / IZR (ten_pow 18))%R in H by (rewrite minus_IZR; field; lra).
+  rewrite Rabs_mult, Rabs_inv, (Rabs_pos_eq (IZR (ten_pow 18))) in H by lra. rewrite <- abs_IZR in H. unfold half_ulp18 in H.
+  assert (H2 : (IZR (Z.abs (m - n)) <= / 2)%R).
+  { apply Rmult_le_reg_r with (/ IZR (ten_pow 18))%R; [apply Rinv_0_lt_compat; exact P|]. exact H. }
+  assert (Z.abs (m - n) < 1) by (apply lt_IZR; lra).
+  replace m with n by lia. reflexivity.
+Qed.
+
+(** a product / quotient that needs no rounding is exact *)
+Corollary dec_mul_exact_on_grid x y z : dec_ok x -> dec_ok y -> dec_mul x y = Ok z -> grid18 (dval x * dval y) -> dval z = (dval x * dval y)%R.
+Proof.
+  intros Hx Hy H G. destruct (dec_mul_acc x y z Hx Hy H) as (Hz & Hb & _). apply grid18_close; [apply dval_grid18; exact Hz|exact G|exact Hb].
+Qed.
+Corollary dec_div_exact_on_grid x y z : dec_ok x -> dec_ok y -> dec_div x y = Ok z -> grid18 (dval x / dval y) -> dval z = (dval x / dval y)%R.
+Proof.
+  intros Hx Hy H G. destruct (dec_div_acc x y z Hx Hy H) as (Hz & _ & Hb). apply grid18_close; [apply dval_grid18; exact Hz|exact G|exact Hb].
+Qed.
+
+Theorem dec_add_total_R x y : dec_ok x -> dec_ok y -> (Rabs (dval x) < big)%R -> (Rabs (dval y) < big)%R -> exists z, dec_add x y = Ok z.
+Proof. intros Hx Hy. apply (dec_addsub_total_R Z.add x y Hx Hy). intros; lia. Qed.
+Theorem dec_sub_total_R x y : dec_ok x -> dec_ok y -> (Rabs (dval x) < big)%R -> (Rabs (dval y) < big)%R -> exists z, dec_sub x y = Ok z.
+Proof. intros Hx Hy. apply (dec_addsub_total_R Z.sub x y Hx Hy). intros; lia. Qed.
